@@ -49,12 +49,14 @@ def replay(ctx, res, name, engine="pango", prefix="C12:", validate_all=True):
     ctx.key_filter = prefix
     summ = ctx.consume_verdicts(ver, rec_path=rec)
     c = summ.get("counts", {})
-    if c.get("scenarios", 0) != cnt or c.get("documents", 0) != cnt:
-        raise MachineryError("harness processed %d of %d documents (%s)" % (c.get("documents", 0), cnt, name))
+    # a document that makes the real layout hang or crash the process has no trace (the watchdog reports it; C01 decides it)
+    processed = c.get("scenarios", 0) + c.get("timeouts", 0)
+    if processed != cnt or c.get("documents", 0) + c.get("panics", 0) + c.get("timeouts", 0) + c.get("fatals", 0) < cnt:
+        raise MachineryError("harness processed %d of %d documents (%s)" % (processed, cnt, name))
     # (B2) TLC validates the observed page sequences
     recs = [l for l in open(rec)]
-    if len(recs) != cnt:
-        raise MachineryError("%d trace records for %d documents" % (len(recs), cnt))
+    if len(recs) != c.get("documents", 0):
+        raise MachineryError("%d trace records for %d documents" % (len(recs), c.get("documents", 0)))
     if not validate_all:
         recs = [l for k, l in enumerate(recs) if '"same":false' in l or k % 4 == 0]
     tf = os.path.join(ctx.scratch, "tracein_%s.ndjson" % name)
